@@ -30,6 +30,7 @@ Definition fd (n : str) (o : list str) (ps : list (str * str)) (sd df b : alist)
 Inductive case :=
 | CRewrite (p : pipeline) (ops : list op) (calls : list rcall)
 | CMap (c : mcase)
+| CAliasMap (c : acase)
 | CAlias (ds : list Alias.fdesc) (rw : aop) (mutate_original : bool) (m : amut)
          (callA callB : str * alist).     (* a request for the untouched side A / for the rewritten side B *)
 
@@ -156,6 +157,7 @@ Definition run (c : case) : sx :=
                 SL (map (fun c => SL (sx_res (run_orig p c) ++ sx_res (nrun body pick p' (c_o1 c) (c_kw1 c)))) calls)]
         end
   | CMap mc => run_map mc
+  | CAliasMap ac => run_alias_map ac
   | CAlias ds rw side m callA callB => run_alias ds rw side m callA callB
   end.
 
@@ -389,6 +391,7 @@ Definition spec_ok (c : case) (obs : sx) : bool :=
         | _ => false
         end
   | CMap mc => spec_map mc obs
+  | CAliasMap ac => spec_alias_map ac obs
   | CAlias _ _ _ _ _ _ =>
       (* the untouched side is the same before and after the rewrite; the side that is not mutated is the same
          before and after the mutation of the other one *)
